@@ -99,6 +99,20 @@ def pump(p, conn, sock, n=4):
 
 def close_pair(p, how, rng):
     """returns description"""
+    if rng.random() < 0.35:
+        # the application keeps ownership of the sockets (closeSocket=False):
+        # what happens to the session must not depend on that
+        p.c.closeSocket = p.s.closeSocket = False
+        try:
+            _close_pair(p, how, rng)
+        finally:
+            p.csock.close()
+            p.ssock.close()
+        return
+    _close_pair(p, how, rng)
+
+
+def _close_pair(p, how, rng):
     if how == "clean":
         t1 = drive.Task("cc", drive.aclose(p.c), p.csock)
         drive.run([t1], p.link)
